@@ -1,0 +1,18 @@
+//go:build verif
+
+package appdb
+
+import db "github.com/tendermint/tm-db"
+
+// VerifWrapDB, when set, wraps the application DB handle (write interception for crash tests).
+var VerifWrapDB func(db.DB) db.DB
+
+func verifWrapDB(d db.DB) db.DB {
+	if VerifWrapDB != nil {
+		return VerifWrapDB(d)
+	}
+	return d
+}
+
+// VerifRawDB exposes the underlying handle for read-back of persisted records.
+func (appDB *AppDB) VerifRawDB() db.DB { return appDB.db }
